@@ -77,10 +77,33 @@ def simulated_write(fmt, records, wp, simfile, append=False):
     raw = RawWriter(simfile, dict(wp.get('plan') or {}))
     bw = io.BufferedWriter(raw, buffer_size=wp.get('bufsize', 8192))
     tw = io.TextIOWrapper(bw, encoding='utf-8', newline='\n', write_through=bool(wp.get('write_through')))
-    if append:
-        w = _cls(FORMATS[fmt]['writer'])(tw, append=True) if fmt in ('rdf', 'erdf') else _cls(FORMATS[fmt]['writer'])(tw)
-    else:
-        w = _cls(FORMATS[fmt]['writer'])(tw)
+    W = _cls(FORMATS[fmt]['writer'])
+    try:
+        if wp.get('via') == 'open':
+            # the writer is given a *path* and opens it itself; its module-level `open` is rebound to the simulated disk
+            import chython.files.mdl.write as MW
+            import chython.files.MRVrw as MV
+
+            def fake_open(file, mode='r', *a, **k):
+                if 'a' not in mode:
+                    del simfile.data[:]
+                    simfile.durable = 0
+                return tw
+            MW.open = MV.open = fake_open
+            try:
+                if fmt == 'mrv':
+                    w = W('/simdisk/out.mrv')
+                else:
+                    w = W('/simdisk/out', append=True) if append else W('/simdisk/out')
+            finally:
+                del MW.open
+                del MV.open
+        elif append and fmt in ('rdf', 'erdf'):
+            w = W(tw, append=True)
+        else:
+            w = W(tw)
+    except Exception as e:
+        raise Violation(f'exception-escaped:{type(e).__name__}', f'constructing {W.__name__}(append={append}, via={wp.get("via")}): {e!r}')
     res = {'crashed': False, 'failed': False, 'written': 0, 'synced': 0}
     fe = wp.get('flush_every', 0)
     try:
@@ -90,18 +113,21 @@ def simulated_write(fmt, records, wp, simfile, append=False):
             except (ValueError, TypeError):
                 continue
             res['written'] += 1
-            if fe and (i + 1) % fe == 0:
+            if fe and (i + 1) % fe == 0 and not tw.closed:
                 tw.flush()
                 simfile.sync()
                 res['synced'] = res['written']
         w.close()
-        tw.flush()
+        if not tw.closed:
+            tw.flush()
         simfile.sync()
         res['synced'] = res['written']
     except SimCrash:
         res['crashed'] = True
     except OSError:
         res['failed'] = True
+    except Exception as e:
+        raise Violation(f'exception-escaped:{type(e).__name__}', f'{W.__name__}.write/close: {e!r}')
     finally:
         # whatever is still buffered above the raw layer is volatile: make sure finalizers cannot push it later
         raw.write = lambda b: len(b)
@@ -499,8 +525,8 @@ def _execute(trace, probes, scratch):
             sf2 = SimFile(bytes(img.data))
             start = len(sf2.data)
             torn = res['crashed'] or res['failed']
-            simulated_write(fmt, arecs, {'bufsize': wp.get('bufsize', 8192), 'clock': wp.get('clock', [60])}, sf2,
-                            append=(start > 0))
+            simulated_write(fmt, arecs, {'bufsize': wp.get('bufsize', 8192), 'clock': wp.get('clock', [60]),
+                                         'via': wp.get('append_via')}, sf2, append=(start > 0))
             # extents of appended records from a reference append
             buf = io.StringIO()
             _patch_clock(SimClock(steps=wp.get('clock', [60])))
@@ -685,7 +711,7 @@ def _indexed_phase(fmt, data, expected, rp, probes, scratch):
                     _cmp_outcome(want, got, f'reader[{i}]', 'getitem')
                     pos = (i % n) + 1
                 elif k == 'slice':
-                    a, b, st = op['a'] % (n + 1), op['b'] % (n + 1), op.get('step', 1) or 1
+                    a, b, st = op.get('a'), op.get('b'), op.get('step', 1) or 1
                     want = [x[1] for x in seq[a:b:st] if x[0] == 'ok']
                     try:
                         got = [record_view(r, fmt) for r in reader[a:b:st]]
@@ -696,6 +722,8 @@ def _indexed_phase(fmt, data, expected, rp, probes, scratch):
                                                                          f'sequential reading gives {len(want)}')
                     if st > 1:
                         probes['slice_step_gt1'] += 1
+                    if st < 0:
+                        probes['slice_negative_step'] += 1
                     pos = None
                 elif k == 'seek':
                     i = op['i'] % n if n else 0
@@ -796,8 +824,12 @@ def generate(seed):
     trace['records'] = [gen_record_spec(w, cfg, FORMATS[fmt]['rxn']) for _ in range(cfg['n_records'])]
     wp = {'bufsize': s.choice([16, 64, 512, 4096, 8192]), 'flush_every': s.choice([0, 0, 1, 2]),
           'write_through': s.random() < 0.2, 'clock': [s.choice([1, 60, 86400, -3600, 10 ** 7]) for _ in range(3)]}
+    wp['via'] = s.choice(['wrapper', 'wrapper', 'open'])
+    wp['append_via'] = s.choice(['wrapper', 'open'])
     trace['write'] = wp
     mode = cfg['mode']
+    if mode == 'clean' and fmt != 'mrv' and s.random() < 0.3:
+        trace['append'] = [gen_record_spec(w, cfg, FORMATS[fmt]['rxn']) for _ in range(s.choice([1, 2]))]
     reads = []
     if mode == 'writefault':
         plan = {}
@@ -861,7 +893,8 @@ def generate(seed):
             if k == 'get':
                 op['neg'] = s.random() < 0.3
             if k == 'slice':
-                op.update(a=s.randrange(16), b=s.randrange(16), step=s.choice([1, 1, 2, 3]))
+                op.update(a=s.choice([None, s.randrange(-9, 12)]), b=s.choice([None, s.randrange(-9, 12)]),
+                          step=s.choice([1, 1, 2, 3, -1, -1, -2]))
             ops.append(op)
         reads.append({'indexed': True, 'ops': ops})
     trace['reads'] = reads
@@ -1053,7 +1086,8 @@ def own_files_phase(probes):
         if fmt != 'mrv':
             try:
                 _indexed_phase(fmt, data, [], {'ops': [{'op': 'get', 'i': k} for k in range(0, 40, 3)] +
-                                               [{'op': 'slice', 'a': 0, 'b': 9, 'step': 2}, {'op': 'reopen', 'i': 0},
+                                               [{'op': 'slice', 'a': 0, 'b': 9, 'step': 2}, {'op': 'slice', 'a': None, 'b': None, 'step': -1},
+                                                {'op': 'reopen', 'i': 0},
                                                 {'op': 'seek', 'i': 5}, {'op': 'current', 'i': 0}, {'op': 'iterate', 'i': 1}]},
                                probes, scratch)
             except Violation as v:
